@@ -839,6 +839,56 @@ func c17GuardWaiters() int {
 	return n
 }
 
+// c17NonConflictingWrite exists to give the writer goroutine a recognisable frame.
+func c17NonConflictingWrite(env *c17Env, pts []models.Point) error { return env.Write(pts) }
+
+// c17WriterBlocked reports whether the non-conflicting writer sits in a wait state while no
+// goroutine is executing subject code (the parked delete is in a channel receive of the harness).
+func c17WriterBlocked() (bool, string) {
+	buf := make([]byte, 4<<20)
+	n := runtime.Stack(buf, true)
+	var target string
+	busy := false
+	for _, g := range strings.Split(string(buf[:n]), "\n\n") {
+		nl := strings.IndexByte(g, '\n')
+		if nl < 0 {
+			continue
+		}
+		h := g[:nl]
+		if strings.Contains(g, "c17NonConflictingWrite") {
+			target = g
+			continue
+		}
+		if (strings.Contains(h, "[running") || strings.Contains(h, "[runnable") || strings.Contains(h, "[syscall") || strings.Contains(h, "[IO wait")) &&
+			strings.Contains(g, "influxdata/influxdb/v2/") && !strings.Contains(g, "c17WriterBlocked") {
+			busy = true
+		}
+	}
+	if target == "" || busy {
+		return false, ""
+	}
+	h := target[:strings.IndexByte(target, '\n')]
+	for _, st := range []string{"sync.RWMutex.Lock", "sync.RWMutex.RLock", "sync.Mutex.Lock", "semacquire", "sync.Cond.Wait", "sync.WaitGroup.Wait", "chan receive", "chan send", "select"} {
+		if strings.Contains(h, "["+st) {
+			site := ""
+			for _, ln := range strings.Split(target, "\n") {
+				if strings.HasPrefix(ln, "github.com/influxdata/influxdb/v2/") {
+					site = strings.TrimPrefix(ln, "github.com/influxdata/influxdb/v2/")
+					if i := strings.LastIndexByte(site, '('); i > 0 {
+						site = site[:i]
+					}
+					break
+				}
+			}
+			if strings.Contains(site, "(*guard).Wait") {
+				return false, "" // the guard case is judged separately
+			}
+			return true, st + " in " + site
+		}
+	}
+	return false, ""
+}
+
 func c17Schedule(r *vkit.Run, t *testing.T, i int) {
 	rg := r.SubRand("sched", i)
 	caseID := fmt.Sprintf("sched#%d", i)
@@ -976,13 +1026,21 @@ func c17Schedule(r *vkit.Run, t *testing.T, i int) {
 			recs = append(recs, rec)
 		}
 	}
+	// ... and, when the delete's range ends before it, a point in a shard group that does not exist
+	// yet: creating the shard takes the store's write lock, which a running delete must not hold up
+	if newStart := c17Base + int64(nG)*c17Hour; d.Max < newStart && len(w.Series) > 0 {
+		p, rec := w.Point(rg, w.Series[rg.Intn(len(w.Series))], newStart+int64(rg.Intn(1000))*1000000, false, c.m)
+		free = append(free, p)
+		recs = append(recs, rec)
+		r.Event("nonconflicting_write_creates_new_shard_group", 1)
+	}
 	c.hist = append(c.hist, fmt.Sprintf("non-conflicting write while delete parked %v", recs))
 	wDone := make(chan error, 1)
-	go func() { wDone <- env.Write(free) }()
+	go func() { wDone <- c17NonConflictingWrite(env, free) }()
 	if parked {
 		r.Event("schedules_parked_"+hook[len("tsm1.delete."):], 1)
 		verdict := ""
-		stuck := 0
+		stuck, otherStuck := 0, 0
 		deadline := time.Now().Add(60 * time.Second)
 	wait:
 		for {
@@ -1002,6 +1060,17 @@ func c17Schedule(r *vkit.Run, t *testing.T, i int) {
 			} else {
 				stuck = 0
 			}
+			// any other wait of the writer while the process is otherwise quiescent (only the
+			// parked delete can release it): e.g. the store's write lock in CreateShard
+			if ok, site := c17WriterBlocked(); ok {
+				otherStuck++
+				if otherStuck >= 8 {
+					verdict = "blocked_elsewhere:" + site
+					break wait
+				}
+			} else {
+				otherStuck = 0
+			}
 			if time.Now().After(deadline) {
 				verdict = "unclear"
 				break wait
@@ -1015,7 +1084,13 @@ func c17Schedule(r *vkit.Run, t *testing.T, i int) {
 			c.violate("nonconflicting_write_blocked", map[string]string{"site": "tsdb.(*guard).Wait"},
 				"a write with no point inside the delete's time range waits in tsdb.(*guard).Wait while the delete is parked", nil, caseID)
 		default:
-			r.Inconclusive("nonconflicting_write_neither_returned_nor_in_guard")
+			if strings.HasPrefix(verdict, "blocked_elsewhere:") {
+				site := strings.TrimPrefix(verdict, "blocked_elsewhere:")
+				c.violate("nonconflicting_write_blocked", map[string]string{"site": site},
+					"a write with no point inside the delete's time range waits ("+site+") while the delete is parked and nothing else is running", nil, caseID)
+			} else {
+				r.Inconclusive("nonconflicting_write_neither_returned_nor_in_guard")
+			}
 		}
 	}
 	// conflicting write (inside the range): expected to wait; asserted neither way, its cells are "either"
